@@ -82,8 +82,8 @@ ClipCoversBins == Judged => LGCovers(NatG, lay.oc, lay.ow2, Lo, Hi)
 \* ... and the contract is what makes the mechanism exact (any rule, any layout)
 CoverLemma == LGCovers(NatG, lay.oc, lay.ow2, Lo, Hi) => (Mech.k = "num" /\ Mech.t = TDef)
 Observed == LGObserved(NatG, lay.oc, lay.ow2)
-\* every layout of the licensed families lies inside the clip window (so all of them are judged)
-FamiliesInside == lay.fam # "over" => Inside
+\* (not every layout of the families is licensed: where the native spacing changes next to the window's end the
+\*  retained end point changes its mid-point width -- known finding L-C13b of C13; the driver counts judged layouts)
 FitsInv  == \A j \in 1..Len(TDef) : Fits(TDef[j])
 \* non-vacuity (must be REFUTED): the clip never removes anything / no layout has widths varying more than 2x
 ClipKeepsAll == Lo = 1 /\ Hi = 57
